@@ -13,7 +13,7 @@
 // which lines are stored, 0-based `!n`, what Up/Down do with a draft.  Lines the reference does not want to predict
 // (white space only, `exit`/`quit`, malformed `!` forms, `history` with arguments) are rubbed out (End, Backspace...) instead of entered.
 //
-// Ops:  cfg fe echo quiet passes | ch c | word w | ref mode k | key k enc | cut
+// Ops:  cfg fe echo quiet passes log | ch c | word w | ref mode k | key k enc | cut
 #define VERIF_MAIN
 #include "common.h"
 #include <algorithm>
@@ -26,10 +26,10 @@ namespace {
 enum { CFG, CH, WORD, REF, KEY, CUT, NOPS };
 enum { K_ENTER, K_BS, K_DEL, K_LEFT, K_RIGHT, K_HOME, K_END, K_UP, K_DOWN, NKEYS };
 const std::vector<const char*> kOpNames = {"cfg", "ch", "word", "ref", "key", "cut"};
-const std::vector<int> kArity = {4, 1, 1, 2, 2, 0};
+const std::vector<int> kArity = {5, 1, 1, 2, 2, 0};
 
 // printable characters that keep a line inside what the reference predicts: no ';' (command lists), no quotes, no '/'
-// (paths), no '#' '>' '$' '%' (prompt look-alikes), no tab
+// (paths), no '#' '>' '$' (prompt look-alikes), no tab; '%' only inside the vocabulary words 28..35
 const char kAlphabet[] = "abcdefghijklmnopqrstuvwxyzABCXYZ0123456789    ---__==++..,,::!!??@()[]{}*&^~|<";
 const int kNAlpha = sizeof kAlphabet - 1;
 const char *const kProbeNames[] = {"p", "pq", "run"};
@@ -38,6 +38,7 @@ const char *const kWords[] = {
   /*0*/ "p", "pq", "run", " ", "a", "b1", "-v", "42", "x=1", "--long-option",
   /*10*/ "history", "ls", "pwd", "help", "tree", "cd", "nosuch", "P", "pp", "!",
   /*20*/ "  ", "0", "-", "hist", "ory", "ru", "n", "q",
+  /*28*/ "%s", "%n", "%5c", "100%%", "%s%s%s%s%s%s%s%s", "%n%n%n%n", "%ld", "%*d",   // printf conversions are ordinary text for a shell
 };
 const int kNWords = sizeof kWords / sizeof kWords[0];
 const size_t kHistoryCap = 20;
@@ -201,11 +202,11 @@ std::vector<std::string> nonBlankLines(const std::string &s) {
 struct Pending { Verdict v; std::string typed; };   // one Enter of the current segment
 
 std::string runEditor(const Scenario &scn, CaseInfo &info) {
-  int fe = FE_FAKE, passes = 1; bool echo = true, quiet = false;
+  int fe = FE_FAKE, passes = 1; bool echo = true, quiet = false, log = false;
   size_t first = 0;
   if (!scn.ops.empty() && scn.ops[0].code == CFG) {
     const Op &c = scn.ops[0];
-    fe = (int)c.in(0, 0, NFE - 1); echo = c.in(1, 0, 1); quiet = c.in(2, 0, 1); passes = (int)c.in(3, 1, 2); first = 1;
+    fe = (int)c.in(0, 0, NFE - 1); echo = c.in(1, 0, 1); quiet = c.in(2, 0, 1); passes = (int)c.in(3, 1, 2); log = c.in(4, 0, 1); first = 1;
   }
   if (fe == FE_RPC) { echo = false; quiet = true; }   // what TcpRpc configures
   if (fe == FE_TELNET) quiet = false;
@@ -213,6 +214,7 @@ std::string runEditor(const Scenario &scn, CaseInfo &info) {
   Rig r;
   r.settle = true;
   r.init();
+  if (log) r.enableLog();
   r.term->setWelcomeText("hello\r\n");
   for (int i = 0; i < kNProbes; ++i) r.term->mountNode(r.term->rootNode(), r.mkProbe(i), kProbeNames[i]);
 
@@ -343,6 +345,8 @@ std::string runEditor(const Scenario &scn, CaseInfo &info) {
   info.cls(kFeName[fe]);
   info.cls_if(echo, "echo_on");
   info.cls_if(quiet, "quiet");
+  info.cls_if(log, "log_channel_installed");
+  info.cls_if(log && r.log_records > 0, "log_records_formatted");
   info.cls_if(m.mid_edit, "mid_line_edit");
   info.cls_if(m.recall_edit, "recalled_line_edited");
   info.cls_if(refs_ok > 0, "history_reference_ran_a_line");
@@ -364,7 +368,7 @@ Scenario expandEditor(uint64_t seed) {
   Scenario sc; auto &v = sc.ops;
   auto mk = [&v](int code, std::vector<int64_t> a) { Op o; o.code = code; o.a = std::move(a); v.push_back(std::move(o)); };
   int fe = (int)r.pick({{5, FE_FAKE}, {3, FE_TELNET}, {2, FE_RPC}});
-  mk(CFG, {fe, r.rng(0, 1), fe == FE_FAKE ? r.pick({{6, 0}, {1, 1}}) : 0, r.rng(1, 2)});
+  mk(CFG, {fe, r.rng(0, 1), fe == FE_FAKE ? r.pick({{6, 0}, {1, 1}}) : 0, r.rng(1, 2), r.rng(0, 1)});
   int cutp = (int)r.pick({{2, 0}, {3, 8}, {2, 35}, {1, 100}});
   auto cut = [&] { if (cutp && r.rng(0, 99) < cutp) mk(CUT, {}); };
   auto key = [&](int k) { mk(KEY, {k, r.rng(0, 3)}); cut(); };
@@ -390,7 +394,7 @@ Scenario expandEditor(uint64_t seed) {
     for (int i = 0; i < na; ++i) {
       word(r.chance(1, 6) ? 20 : 3);
       if (r.chance(1, 4)) edit();
-      if (r.chance(3, 4)) word((int)r.rng(4, 9)); else { int n = (int)r.rng(1, 4); for (int j = 0; j < n; ++j) ch(); }
+      if (r.chance(1, 8)) word((int)r.rng(28, 35)); else if (r.chance(3, 4)) word((int)r.rng(4, 9)); else { int n = (int)r.rng(1, 4); for (int j = 0; j < n; ++j) ch(); }
     }
     if (r.chance(1, 3)) edit();
   };
@@ -409,7 +413,7 @@ Scenario expandEditor(uint64_t seed) {
         if (r.chance(3, 5)) edit();
         if (r.chance(1, 5)) { word(3); word((int)r.rng(4, 9)); }
         break; }
-      case 5: word((int)r.rng(11, 18)); if (r.chance(1, 2)) { word(3); word((int)r.rng(4, 9)); } break;   // built-in / unknown command
+      case 5: word(r.chance(1, 5) ? (int)r.rng(28, 35) : (int)r.rng(11, 18)); if (r.chance(1, 2)) { word(3); word((int)r.rng(4, 9)); } break;   // built-in / unknown command
       default: { int n = (int)r.rng(1, 8); for (int j = 0; j < n; ++j) { if (r.chance(1, 3)) edit(); else ch(); } break; }
     }
     key(K_ENTER);
